@@ -780,9 +780,6 @@ pub fn run(r: &Report, prop: &str) {
                 || r.local(),
                 |l: &mut Local, c: Case12, tr| {
                     l.eval();
-                    if std::env::var("MC_COUNT_ONLY").is_ok() {
-                        return;
-                    }
                     l.transition(tr.len() as u64);
                     let h = hash64(&[c.src.as_bytes()]);
                     l.state(h);
